@@ -6,8 +6,8 @@ from pyvc.sym import (VInt, VBool, VStr, VRef, VOpt, INT, BOOL, STR, REF, TList,
                       length, tobool, toint, tostr, fresh_name, qforall)
 from contracts.common import add_common, WF, wf_theory, desc, preorder_facts
 
-VERIFY = ["trees.transform.negra_mark_heads", "trees.transformconst.get_headpos_by_rule"]
-WIP = ["trees.transform.mark_heads_by_rules"]
+VERIFY = ["trees.transform.negra_mark_heads", "trees.transformconst.get_headpos_by_rule",
+          "trees.transform.mark_heads_by_rules"]
 SHARDS = {"trees.transform.negra_mark_heads": 8, "trees.transform.mark_heads_by_rules": 8}
 TRUSTED = ["contracts of trees.preorder / trees.children used at call sites (both verified under C19); wf_theory"]
 ASSUMPTIONS = ["every node carries an 'edge' entry (value may be None); Tree heap model of DESIGN 3.3",
@@ -81,21 +81,21 @@ def add_headpos(reg):
 
     def nomatch_word(S, word, lo, hi):
         """no child with index in [lo, hi) has the category `word`"""
-        i = z3.Int(fresh_name("mi"))
+        i = z3.Int("hp_mi")
         ch = S.children_label
         return qforall([i], z3.Implies(z3.And(lo <= i, i < hi), category(reg, tostr(ch.get(i))) != word),
                        [tostr(ch.get(i))])
 
     def nomatch_rule(S, labs, upto):
         """none of the first `upto` categories listed in `labs` is the category of a child"""
-        w = z3.Int(fresh_name("mw"))
+        w = z3.Int("hp_mw")
         W = spec_wsplit(VStr(labs))
         return qforall([w], z3.Implies(z3.And(0 <= w, w < upto),
                                        nomatch_word(S, tostr(W.get(w)), 0, S.children_label.n)), [tostr(W.get(w))])
 
     def listed(S, i, bound):
         """the category of child i is listed in one of the first `bound` head rules of the parent's category"""
-        r, w = z3.Int(fresh_name("lr")), z3.Int(fresh_name("lw"))
+        r, w = z3.Int("hp_lr"), z3.Int("hp_lw")
         R = rules_of(S)
         labs = lambda q: tostr(R.get(q).items[1])
         return z3.Exists([r, w], z3.And(0 <= r, r < bound, 0 <= w, w < spec_wsplit(VStr(labs(r))).n,
@@ -104,14 +104,14 @@ def add_headpos(reg):
 
     def requires(S, parent_label, children_label, rules, default):
         # the head rules of this category name a known direction each
-        r = z3.Int(fresh_name("qr"))
+        r = z3.Int("hp_qr")
         R = rules.val(STR_LOWER(tostr(parent_label)))
         key = rules.has(STR_LOWER(tostr(parent_label)))
         return VBool(z3.Implies(tobool(key), qforall([r], z3.Implies(z3.And(0 <= r, r < R.n), z3.Or(
             tostr(R.get(r).items[0]) == LTR, tostr(R.get(r).items[0]) == RTL)), [tostr(R.get(r).items[0])])))
 
     def outer_inv(S):
-        r = z3.Int(fresh_name("or"))
+        r = z3.Int("hp_or")
         R = rules_of(S)
         return VBool(qforall([r], z3.Implies(z3.And(0 <= r, r < toint(S.it)), z3.And(
             z3.Length(tostr(R.get(r).items[1])) > 0,
@@ -133,7 +133,7 @@ def add_headpos(reg):
         rules.  Among the rules before e: the only listed child is the head; if several are listed the head is one of
         them; if none is listed the head is the last / first child as the empty rule's direction says, or the first
         child when there is no empty rule."""
-        i0, i, e, r = (z3.Int(fresh_name(x)) for x in ("pi", "pj", "pe", "pr"))
+        i0, i, e, r = (z3.Int("hp_" + x) for x in ("pi", "pj", "pe", "pr"))
         key = tobool(rules.has(STR_LOWER(tostr(parent_label))))
         R = rules.val(STR_LOWER(tostr(parent_label)))
         labs = lambda q: tostr(R.get(q).items[1])
@@ -252,35 +252,67 @@ def add_mark_heads_by_rules(reg):
     def table(S, rules):
         """the rule table the run uses, as a symbolic dict"""
         if isinstance(rules, dict) and rules:
-            return sym.dict_from_concrete(rules, RULES_T.vt)
+            return sym.dict_abstract(rules, RULES_T.vt)[0] if len(rules) > 4 else sym.dict_from_concrete(rules, RULES_T.vt)
         if isinstance(rules, sym.VDict):
             return rules
         return sym.VDict(STR, RULES_T.vt, lambda k_: VBool(z3.BoolVal(False)),
                          lambda k_: sym.fresh(RULES_T.vt, "empty_dict_val"))
 
-    def marked_rel(S, H, p, rules):
-        """exactly one child of p is marked, every other child is marked as non-head, and the marked child is a
-        position get_headpos_by_rule's contract allows for (category of p, categories of its children, rules)"""
+    def table_id(rules):
+        import hashlib
+        if isinstance(rules, dict) and rules:
+            return hashlib.sha1(repr(sorted(rules.items())).encode("utf-8")).hexdigest()[:8]
+        return "empty"
+
+    def allowed_pred(H, rules):
+        """ALLOWED(p, hd): position hd is one get_headpos_by_rule's contract allows for (category of p, categories of
+        its ordered children, this rule table) -- an uninterpreted predicate; its definition (allowed_def) is part of
+        the precondition.  Keeping the large quantified clause behind a name keeps the invariants small."""
+        args = H._shape_args() + [H.f["val_label"]]
+        f = z3.Function("ALLOWED_" + table_id(rules), *([a.sort() for a in args] + [z3.IntSort(), z3.IntSort(),
+                                                                                   z3.BoolSort()]))
+        return lambda p, hd: f(*(args + [p, hd]))
+
+    def allowed_formula(S, H, p, hd, rules):
         C = H.ochildren(p)
-        hd, j = z3.Int(fresh_name("hd")), z3.Int(fresh_name("mj"))
         labels = VList(C.n, get=lambda i: plabel(H, C.get(i)), et=STR)
 
         class S2(object):
             pass
         S2.H = H
         S2.parent_label, S2.children_label, S2.rules = plabel(H, p), labels, table(S, rules)
-        allowed = tobool(hp.ensures["the_only_listed_child_is_the_head"](S2, S2.parent_label, labels, S2.rules,
-                                                                           VInt(z3.IntVal(0)), VInt(hd)))
+        return tobool(hp.ensures["the_only_listed_child_is_the_head"](S2, S2.parent_label, labels, S2.rules,
+                                                                        VInt(z3.IntVal(0)), VInt(hd)))
+
+    def allowed_def(S, H, rules):
+        p, hd = z3.Int("ad_p"), z3.Int("ad_hd")
+        A = allowed_pred(H, rules)
+        return z3.ForAll([p, hd], A(p, hd) == allowed_formula(S, H, VRef(p), hd, rules), patterns=[A(p, hd)])
+
+    def marked_rel(S, H, p, rules):
+        """exactly one child of p is marked, every other child is marked as non-head, and the marked child is a
+        position get_headpos_by_rule's contract allows for (category of p, categories of its children, rules)"""
+        C = H.ochildren(p)
+        hd, j = z3.Int("mr_hd"), z3.Int("mr_j")       # fixed names: two instances of this clause are the same term
         flags = qforall([j], z3.Implies(z3.And(0 <= j, j < C.n),
                                         z3.And(H.has(C.get(j), "head").t, H.data(C.get(j), "head").t == (j == hd))),
                         [C.get(j).t])
-        return z3.Exists([hd], z3.And(HPW(hd), 0 <= hd, hd < C.n, allowed, flags), patterns=[HPW(hd)])
+        return z3.Exists([hd], z3.And(HPW(hd), 0 <= hd, hd < C.n, allowed_pred(H, rules)(p.t, hd), flags),
+                         patterns=[HPW(hd)])
+
+    def rule_tables(S):
+        repo = S._ex.repo
+        return [repo.constant("transformconst", "HEAD_RULES_NEGRA"), repo.constant("transformconst", "HEAD_RULES_PTB"), []]
 
     def requires(S, tree, params):
         H = S.H
         x = z3.Int(fresh_name("rx"))
         lab_ok = lambda r: z3.And(z3.Select(H.f["has_label"], r), z3.Not(z3.Select(H.f["none_label"], r)))
+        w = z3.Int(fresh_name("hw"))
         return conj(WF(H, tree), tree != None, wf_theory(H), VBool(H.parent_t(tree.t) == 0),
+                    VBool(z3.ForAll([w], HPW(w), patterns=[HPW(w)])),        # definition: HPW is the constant true
+                    # definition of ALLOWED for the three tables a run can use
+                    VBool(z3.And(*[allowed_def(S, H, r_) for r_ in rule_tables(S)])),
                     VBool(qforall([x], z3.Implies(tobool(WF(H, VRef(x))), lab_ok(x)),
                                   [z3.Select(H.f["val_label"], x)])))
 
@@ -326,15 +358,37 @@ def add_mark_heads_by_rules(reg):
                           [C.get(j).t])),
             VBool(untouched_outside(H, Hh, lambda x: z3.And(H.parent_t(x) == sub.t, x != 0))))
 
-    def post(S, tree, params, result):
-        H = S.H
-        p = z3.Int(fresh_name("pp"))
+    def after_marking(S):
+        """ghost assertions after the marking loop: (1) this constituent is marked as the rules say, (2) the
+        constituents visited earlier still are (their children are not children of this one)"""
+        H, tree, sub = S.H, S.tree, S.subtree
+        P = H.pre(tree)
+        k = z3.Int(fresh_name("ak"))
         rules = S.final("rules")
+        return VBool(z3.And(
+            marked_rel(S, H, sub, rules),
+            qforall([k], z3.Implies(z3.And(0 <= k, k < H.pre_idx(tree, sub).t, H.nchild_t(P.get(k).t) > 0),
+                                    marked_rel(S, H, P.get(k), rules)), [P.get(k).t])))
+
+    def post(S, tree, params, result):
+        """stated over the preorder positions P(tree)[k]; by the (verified) contract of preorder these are exactly
+        the nodes below tree"""
+        H = S.H
+        k = z3.Int(fresh_name("pk"))
+        P = H.pre(tree)
+        has, val = params.fields["has"], params.fields["val"]
+        preset = tostr(val["mark_heads_preset"])
+        negra, ptb, none = rule_tables(S)
+        # which table the parameters select: preset 'negra' / 'ptb', or no rules at all for an empty rule file name
+        chosen = [(z3.And(has["mark_heads_preset"], preset == z3.StringVal("negra")), negra),
+                  (z3.And(has["mark_heads_preset"], preset == z3.StringVal("ptb")), ptb),
+                  (z3.Not(has["mark_heads_preset"]), none)]
         return VBool(z3.And(
             result.t == tree.t,
             H.has(tree, "head").t, z3.Not(H.data(tree, "head").t),
-            z3.ForAll([p], z3.Implies(z3.And(tobool(WF(H, VRef(p))), tobool(desc(H, tree, VRef(p))),
-                                             H.nchild_t(p) > 0), marked_rel(S, H, VRef(p), rules)))))
+            *[z3.Implies(cond, qforall([k], z3.Implies(z3.And(0 <= k, k < P.n, H.nchild_t(P.get(k).t) > 0),
+                                                      marked_rel(S, H, P.get(k), tbl)), [P.get(k).t]))
+              for cond, tbl in chosen]))
 
     reg.add(Contract(
         target="trees.transform.mark_heads_by_rules", prop="C15", args=dict(tree=REF),
@@ -344,5 +398,8 @@ def add_mark_heads_by_rules(reg):
         result_type=REF,
         solver_hints={"inv0.keep": {"cli_s": 60}, "post.": {"cli_s": 30}, "safe.": {"cli_s": 20},
                       "pre@": {"cli_s": 30}},
-        loops={0: dict(inv=outer_inv), 1: dict(inv=inner_inv)},
+        loops={0: dict(inv=outer_inv),
+               1: dict(inv=inner_inv,
+                       # ghost assertion after the marking loop: this constituent is marked as the rules say
+                       after=after_marking)},
     ))
